@@ -165,9 +165,9 @@ func textProp(tg *textTarget, what, ntRule string, assumptions ...string) vrt.Pr
 }
 
 func TestC16TextParseString(t *testing.T) {
-	vrt.Check(t, textProp(tgtParseString, "reflect types (every kind parse.String documents, unsupported kinds, named types and nested collections)",
+	vrt.Check(t, textProp(tgtParseString, "reflect types (every kind parse.String documents, named types, nested collections, and the kinds it does NOT support - uintptr, named uintptr, chan, func, struct, interface, pointer, array, unsafe.Pointer - alone and as slice element, map value and map key; a sixth of the cases picks one of those, and 40% of all inputs are text that is WELL-FORMED for the selected type: numbers for numeric kinds, uintptr included, comma lists, k:v lists, a plain number where no spelling exists)",
 		"the call succeeded or failed on an element / key / overflow check (past the top-level syntax check)",
-		"success means: a value of the requested type for slices and maps, a non-nil pointer to it otherwise (the shape StringCastingMangler relies on)"))
+		"success means: a value of the requested type for slices and maps, a non-nil pointer to it otherwise (the shape StringCastingMangler relies on); an invalid reflect.Value with a nil error is a violation"))
 }
 
 func TestC16TextSplitters(t *testing.T) {
